@@ -514,6 +514,7 @@ func (g *Gen) ghostField(env *Env, gd *GhostDecl, base Val) Val {
 	if base.Addr != nil {
 		panic(evalErr("ghost field of a symbolic address"))
 	}
+	base = g.ghostOwner(base, owner)
 	if base.sort(g) != owner {
 		panic(evalErr(fmt.Sprintf("ghost field %s: owner sort %s, got %s", gd.Name, owner, base.sort(g))))
 	}
@@ -522,6 +523,16 @@ func (g *Gen) ghostField(env *Env, gd *GhostDecl, base Val) Val {
 		v.Sort = valSort
 	}
 	return v
+}
+
+// ghostOwner: a ghost field owned by references, accessed through an interface value, belongs to
+// the object the interface holds (iface.ref).
+func (g *Gen) ghostOwner(base Val, owner string) Val {
+	if owner == "Int" && base.sort(g) == "Iface" {
+		g.uf("iface.ref", []string{"Iface"}, "Int")
+		return Val{Sort: "Int", S: "(iface.ref " + base.S + ")"}
+	}
+	return base
 }
 
 func (g *Gen) evalIndex(env *Env, x *EIndex) Val {
